@@ -98,7 +98,8 @@ THEOREMS = ["committer_roundtrip_name_email", "committer_roundtrip_plain", "comm
             "directory_rename_witness", "import_export_graph", "import_export_iso_partial",
             "import_export_iso_of_fine_partial", "zone_roundtrip", "zone_seconds_lost_witness", "tags_preserved"]
 RULE = ("scenario = (seed, index): a generated history of 5-8 revisions with tags, or ('m', seed, variant): the directed "
-        "merge family (mainline renames an entry, the merge re-adds its old path), exported from its tip in both "
+        "merge family (mainline renames an entry, the merge re-adds its old path), or ('x', seed, variant): the directed "
+        "single-entry metadata family (rename / move / chmod / symlink-retarget combinations, one entry per revision), exported from its tip in both "
         "formats and imported into a fresh repository; case = one commit of the stream (its file commands, its "
         "parents, its imported tree) or the whole-history comparison; non-trivial = the commit has a rename, a "
         "deletion or >= 2 parents; distinct by canonical (old tree, new tree) / history")
@@ -424,10 +425,53 @@ def merge_readd_history(rng, variant):
     return revs
 
 
+def meta_history(rng, variant):
+    """a second directed family every run contains: a linear history in which every revision touches ONE entry
+    (so no rename chain, swap or directory rename is involved and no known exporter/importer defect can mask the
+    comparison) with one combination of {rename, move to another directory, executable-bit flip, content
+    change, symlink retarget}: in particular rename + chmod with unchanged content in both directions, chmod
+    alone, and rename + retarget of a symlink.  `variant` permutes the order and picks names/contents."""
+    root = c40.ROOT_ID
+    names = rng.sample(["a", "b", "c", "d", "e", "f1", "with space", "\u00e9t\u00e9", "x-y", "n0", "tool.sh", "run"], 10)
+    D1, D2 = b"d-1", b"d-2"
+    base = {root: (None, "", "directory", None, False),
+            D1: (root, names[0], "directory", None, False), D2: (D1, names[1], "directory", None, False)}
+    fids = [b"f-%d" % i for i in range(1, 7)]
+    for i, f in enumerate(fids[:4]):
+        base[f] = (rng.choice([root, D1]), names[2 + i] + ("" if i % 2 else ".sh"), "file", c40.gen_content(rng, "guarded"), bool((variant >> i) & 1))
+    base[fids[4]] = (root, names[6], "symlink", "target", False)
+    base[fids[5]] = (D1, names[7], "file", c40.gen_content(rng, "guarded"), False)
+    steps = [
+        ("rename+chmod", lambda e: (e[0], e[1] + "-r", e[2], e[3], not e[4]), fids[0]),
+        ("move+chmod", lambda e: (D2, e[1], e[2], e[3], not e[4]), fids[1]),
+        ("chmod", lambda e: (e[0], e[1], e[2], e[3], not e[4]), fids[2]),
+        ("rename+chmod+content", lambda e: (e[0], "n-" + e[1], e[2], c40.mutate_content(rng, e[3], "guarded"), not e[4]), fids[3]),
+        ("symlink-rename+retarget", lambda e: (D1, e[1] + "-l", e[2], "a/b", False), fids[4]),
+        ("rename", lambda e: (root, e[1] + "-m", e[2], e[3], e[4]), fids[5]),
+        ("rename+chmod-back", lambda e: (e[0], e[1] + "2", e[2], e[3], not e[4]), fids[0]),
+    ]
+    k = variant % len(steps)
+    steps = steps[k:] + steps[:k]
+    trees = [("r01", [], base, ["init"])]
+    cur = base
+    for i, (op, fn, fid) in enumerate(steps):
+        cur = dict(cur)
+        cur[fid] = fn(cur[fid])
+        trees.append(("r%02d" % (i + 2), ["r%02d" % (i + 1)], cur, [op]))
+    revs = []
+    for i, (rid, parents, tree, ops) in enumerate(trees):
+        revs.append(dict(rid=rid.encode(), parents=[p.encode() for p in parents], tree=tree, ops=ops,
+                         msg=rng.choice(c40.MESSAGES), ts=float(1500000000 + i * 1000),
+                         tz=rng.choice([0, 3600, -18000, 19800, -12600]), committer=rng.choice(c40.COMMITTERS), props={}))
+    return revs
+
+
 def build(key):
     rng = random.Random(repr(tuple(key)))
     if key[0] == "m":
         revs = merge_readd_history(rng, key[2])
+    elif key[0] == "x":
+        revs = meta_history(rng, key[2])
     else:
         n = rng.randint(5, 8)
         revs = c40.gen_history(rng, n, dict(nul="guarded", merge=0.35, ghost=0.15))
@@ -851,6 +895,8 @@ def run(ctx, nscen=None):
     # without the further rename in every run
     nm = ctx.pick(6, 32)
     keys += [(("m", ctx.seed, (ctx.seed * 6 + 5 * i) % 32), ctx.tier) for i in range(nm)]
+    # the directed single-entry metadata family (rename / move / chmod / retarget combinations, no chains)
+    keys += [(("x", ctx.seed, (ctx.seed * 3 + 5 * i) % 16), ctx.tier) for i in range(ctx.pick(3, 16))]
     for o in ctx.pmap(run_scenario, keys, chunksize=1):
         if o.get("crash"):
             raise env.InfraError(o["crash"])
